@@ -11,10 +11,28 @@ Oracle: a reference model of which definitions are live.  After every settled op
 and each runs exactly once per probe occurrence per trigger; startup/shutdown markers exactly once per
 definition/removal; the census of subscriptions, listeners, services, webhooks, MQTT subscriptions, tasks and
 timers is a function of the live set only (history independent) and equals the pre-setup census after unload.
+
+Further situations:
+* decorator order: a template lists its decorators either in the conventional order (triggers first, @service
+  last) or in a seeded random order, so @service / @mqtt_trigger may precede other triggers of the same function.
+* a context stopped while its functions are still being started: `make_racing` (a run-time definition in
+  progress when the integration is unloaded / the script reloaded) and `file_edit_racing` (a file is edited and
+  reloaded, and edited and reloaded again a few ms later while the functions of the first edit are still being
+  started - the start of @service really suspends, see cfg["svc_params_delay_ms"]).  The superseded definition must
+  never run for an occurrence afterwards and must leave nothing behind (census).
+* an app in package form (apps/pa/__init__.py importing the sibling apps/pa/sub.py, both with decorated functions):
+  editing either file reloads the whole app; editing the main file so that it no longer imports the sibling,
+  deleting the main file or "commenting" it (rename to #__init__.py) followed by an argument-less reload removes
+  everything of the app, also the functions of the sibling file that is still on disk; writing the main file again
+  brings the app back.
+* a decorated closure referenced only by a variable of its factory's frame, which a sibling closure (kept in a
+  dict) deletes (`nonlocal fn; del fn`) or overwrites (`fn = None`): cell_make / cell_drop.
 """
 
 from __future__ import annotations
 
+import asyncio
+import contextvars
 import copy
 import json
 import random
@@ -25,9 +43,11 @@ from ..world import World
 PROPERTY = "C09"
 LEVEL = "exploration"
 RULE = (
-    "seeded generation of 2-4 decorator templates (subsets of 8 trigger kinds) and <=20 lifecycle ops over closures in "
-    "containers and file-level functions, each followed by a probe round; distinct = scenario digest; non-trivial = "
-    "at least one definition was deactivated and then probed"
+    "seeded generation of 2-4 decorator templates (subsets of 9 trigger kinds, in conventional or seeded random "
+    "decorator order) and <=20 lifecycle ops over closures in containers, file-level functions and the two files of "
+    "an app in package form (edit / stop importing the sibling / delete or '#'-rename the main file / restore), "
+    "including stops that land while a definition or a file's functions are still being started, each followed by "
+    "a probe round; distinct = scenario digest; non-trivial = at least one definition was deactivated and then probed"
 )
 ASSUMPTIONS = [
     "after every op the harness lets the loop settle, runs gc.collect() and settles again before probing (cycle "
@@ -41,77 +61,147 @@ ASSUMPTIONS = [
     "declaring it and starting together race for it, the property does not decide the winner)",
     "startup/shutdown markers of a definition whose context was stopped while it was being defined are don't-care; "
     "it must never run for an occurrence afterwards",
+    "the same holds for the first of two edits of a file that are reloaded a few ms apart (file_edit_racing): whether "
+    "the superseded definition got as far as its startup run is not decided; it must not run for any occurrence after "
+    "the second reload has settled and must leave nothing in the census",
+    "an app is reloaded as a whole when one of its files changes (docs, 'Reloading Scripts'): every function of the "
+    "app is then a new definition (shutdown of the old one, startup of the new one); the sibling file of the app "
+    "package is loaded only through the main file's import, so it is live exactly while the main file is present, "
+    "configured and imports it; the files of the app never declare the shared service name",
+    "steer (cfg['steer'], half of the runs): a definition that is stopped while it is being started (make_racing + "
+    "script reload, file_edit_racing) does not list @service before the shared service name - finding "
+    "C09.unstarted_stop on the unchanged code: DecoratorManager.stop() also stops decorators that start() has not "
+    "reached yet, and ServiceDecorator.stop() removes the service name without having registered it, which takes "
+    "away the registration of another live function; the other half of the runs keeps judging it",
+    "steer (cfg['steer'], same coin): the variable of the factory's frame that holds a closure (cell_make) is only "
+    "overwritten, never deleted with `del` - finding C09.cell_del on the unchanged code: `del` of a variable captured "
+    "by a sibling closure marks it undefined but keeps the function object, so its triggers stay active; the other "
+    "half of the runs keeps judging it",
 ]
 TIERS = {
     "quick": {"runs": 500, "chunk": 17},
-    "thorough": {"runs": 20000, "chunk": 120},
+    # (a chunk's wall time must stay well below the 600 s chunk timeout also on a busy machine)
+    "thorough": {"runs": 20000, "chunk": 60},
 }
 REACH_PROBES = ["redefined_in_slot", "closure_dropped_from_container", "container_cleared", "file_reloaded", "file_deleted",
                 "unloaded_and_compared", "setup_again", "several_names_one_entity", "same_live_set_seen_twice",
                 "stale_condition_probe", "periodic_trigger_removed", "webhook_redefined",
                 "stop_while_definition_in_progress", "shared_service_name_refused", "function_defined_twice_in_one_file",
-                "definition_dropped_at_once"]
+                "definition_dropped_at_once", "service_listed_before_other_trigger",
+                "file_reloaded_again_while_starting", "context_stopped_while_service_start_suspended",
+                "stopped_service_start_had_more_decorators_to_start", "app_package_loaded", "app_file_edited",
+                "app_main_deleted_sibling_on_disk", "app_main_commented_sibling_on_disk", "app_sibling_no_longer_imported",
+                "app_restored", "unstarted_service_of_stopped_function_names_live_service",
+                "closure_referenced_by_cell_only", "cell_variable_deleted", "cell_variable_overwritten"]
 SHRINK_LISTS = [["ops"], ["spec", "templates"]]
 
 KINDS = ["ev", "st", "st2", "time", "per", "mqtt", "hook", "svc", "shr"]
 SLOTS = ["a", "b", "c"]
 FILES = ["ga", "gb"]
+APP = "pa"                       # the app in package form: apps/pa/__init__.py + apps/pa/sub.py
+APP_KEYS = ["app_main", "app_sub"]
+APP_MAIN = f"pyscript/apps/{APP}/__init__.py"
+APP_MAIN_COMMENTED = f"pyscript/apps/{APP}/#__init__.py"
+APP_SUB = f"pyscript/apps/{APP}/sub.py"
 
 
 # ------------------------------------------------------------------ generation
 def gen(rng: random.Random, tier: str) -> dict:
     cfg = gen_cfg(rng)
     cfg["drift"] = 0.0
-    cfg["svc_params_delay_ms"] = rng.choice([0, 0, 2.0, 8.0])  # injected suspension inside ServiceDecorator.start()
+    # injected suspension inside ServiceDecorator.start() (see World): 0 = none
+    cfg["svc_params_delay_ms"] = rng.choice([0, 0, 2.0, 8.0, 40.0])
+    # which refreshes of the service-description cache suspend: every one ("all": also the one the reload handler
+    # makes before it stops anything) or only those made on behalf of a starting @service ("start_only": the cache
+    # is warm for everything but the service that has just been registered)
+    cfg["svc_delay_where"] = rng.choice(["all", "start_only", "start_only"])
+    # steer (half of the runs): the racing ops do not use a template that lists @service before the shared service
+    # name (finding C09.unstarted_stop on the unchanged code); see normalize()
+    cfg["steer"] = rng.random() < 0.5
     templates = []
     for _ in range(rng.randint(2, 4)):
-        kinds = sorted(rng.sample(KINDS, rng.choice([1, 2, 2, 3, 4])), key=KINDS.index)
+        kinds = rng.sample(KINDS, rng.choice([1, 2, 2, 3, 4]))
+        if rng.random() < 0.5:
+            kinds = sorted(kinds, key=KINDS.index)  # the conventional order: triggers first, @service last
         templates.append(kinds)
     files = {}
     for name in FILES:
         if rng.random() < 0.6:
             files[name] = rng.randrange(len(templates))
     redef = [name for name in FILES if rng.random() < 0.25]
+    app = None
+    if rng.random() < 0.4:
+        app = {"main": rng.randrange(len(templates)), "sub": rng.randrange(len(templates)),
+               "imports": rng.random() < 0.9}
+    racing_ms = [0, 0.1, 0.4, 1, 3, 10, 25]
+    # templates whose start really suspends (the injected suspension is inside the start of @service)
+    suspending = [i for i, kinds in enumerate(templates) if "svc" in kinds or "shr" in kinds]
     ops = []
     n_list = 0
+    cell_slots: set = set()
     for _ in range(rng.randint(4, 20 if tier == "thorough" else 14)):
         roll = rng.random()
         tmpl = rng.randrange(len(templates))
-        if roll < 0.3:
+        if roll >= 0.86 and roll < 0.97 and suspending and rng.random() < 0.6:
+            tmpl = rng.choice(suspending)  # the racing ops below: prefer a definition that can be caught in progress
+        if roll < 0.07 and app is not None:
+            # the app package: edit one of its files / remove the main file (the sibling stays on disk)
+            sub = rng.random()
+            if sub < 0.3:
+                ops.append({"kind": "app_edit", "part": "main", "tmpl": tmpl, "imports": rng.random() < 0.75})
+            elif sub < 0.5:
+                ops.append({"kind": "app_edit", "part": "sub", "tmpl": tmpl})
+            else:
+                ops.append({"kind": "app_remove_main", "how": rng.choice(["delete", "comment"])})
+        elif roll < 0.30:
             ops.append({"kind": "make", "slot": rng.choice(SLOTS), "tmpl": tmpl})
-        elif roll < 0.36:
+        elif roll < 0.34:
+            # the decorated closure is referenced only by a variable of its factory's frame (a cell), which a sibling
+            # closure kept in a dict can delete or overwrite
+            ops.append({"kind": "cell_make", "slot": rng.choice(SLOTS), "tmpl": tmpl})
+            cell_slots.add(ops[-1]["slot"])
+        elif roll < 0.39:
             n_list += 1
             ops.append({"kind": "append", "tmpl": tmpl})
-        elif roll < 0.39:
+        elif roll < 0.42:
             # a decorated closure is created and its only reference dropped at once, in the same call
             ops.append({"kind": "make_lost", "tmpl": tmpl})
-        elif roll < 0.52:
+        elif roll < 0.50:
             ops.append({"kind": "drop", "slot": rng.choice(SLOTS)})
+        elif roll < 0.53:
+            ops.append({"kind": "cell_drop", "slot": rng.choice(sorted(cell_slots) or SLOTS),
+                        "how": rng.choice(["del", "rebind"])})
         elif roll < 0.57:
             ops.append({"kind": "clear"})
-        elif roll < 0.67:
+        elif roll < 0.65:
             ops.append({"kind": "file_edit", "name": rng.choice(FILES), "tmpl": tmpl})
-        elif roll < 0.72:
+        elif roll < 0.69:
             ops.append({"kind": "file_delete", "name": rng.choice(FILES)})
-        elif roll < 0.78:
+        elif roll < 0.74:
             ops.append({"kind": "reload"})
-        elif roll < 0.86:
+        elif roll < 0.81:
             ops.append({"kind": "unload"})
             ops.append({"kind": "set_p2", "s": rng.choice(["zz", "ok", "zz"])})
             ops.append({"kind": "setup"})
-        elif roll < 0.92:
+        elif roll < 0.86:
             ops.append({"kind": "set_p2", "s": rng.choice(["zz", "ok", "q"])})
-        elif roll < 0.97:
+        elif roll < 0.93:
             # a run-time definition that is still in progress (service call issued, not awaited) when its context is
             # stopped: by unloading the integration or by reloading the edited script that holds the containers
             then = rng.choice(["unload", "main_reload"])
             ops.append({"kind": "make_racing", "slot": rng.choice(SLOTS), "tmpl": tmpl, "then": then,
-                        "after_ms": rng.choice([0, 0.1, 0.4, 1, 3, 10, 25])})
+                        "after_ms": rng.choice(racing_ms)})
             if then == "unload":
                 ops.append({"kind": "setup"})
+        elif roll < 0.97:
+            # a file is edited and reloaded, and edited and reloaded again while the functions of the first edit
+            # are still being started
+            ops.append({"kind": "file_edit_racing", "name": rng.choice(FILES), "tmpl": tmpl,
+                        "tmpl2": rng.randrange(len(templates)), "after_ms": rng.choice(racing_ms)})
         else:
             ops.append({"kind": "stall", "s": rng.choice([0.05, 0.5])})
-    return normalize({"cfg": cfg, "spec": {"templates": templates, "files": files, "redef": redef}, "ops": ops})
+    return normalize({"cfg": cfg, "spec": {"templates": templates, "files": files, "redef": redef, "app": app},
+                      "ops": ops})
 
 
 # ------------------------------------------------------------------ rendering
@@ -159,6 +249,22 @@ def _file_src(name: str, tmpl_idx: int, kinds: list, gen_no: int, redef: bool = 
     return "\n".join(lines) + "\n"
 
 
+def _app_src(part: str, tmpl_idx: int, kinds: list, gen_no: int, imports: bool = True) -> str:
+    """One of the two files of the app package: the main file (imports the sibling unless told not to) or the sibling."""
+    key = f"app_{part}"
+    lines = [f"# generation {gen_no}"]
+    if part == "main" and imports:
+        lines.append("from .sub import helper")
+    lines.append(f"SLOT = '{key}'")
+    if part == "sub":
+        lines += ["", "def helper():", "    return 17", ""]
+    lines += _decorators(kinds, "SLOT")
+    lines += [f"def top_{key}(**kw):",
+              f"    sim.mark('run', '{key}', {gen_no}, {tmpl_idx}, kw.get('trigger_type'), kw.get('trigger_time'), kw.get('var_name'))",
+              ""]
+    return "\n".join(lines) + "\n"
+
+
 def render(scn: dict) -> dict:
     spec = scn["spec"]
     lines = ["holder = {}", "lst = []", ""]
@@ -170,11 +276,31 @@ def render(scn: dict) -> dict:
         lines.append(f"        sim.mark('run', slot, gen, {idx}, kw.get('trigger_type'), kw.get('trigger_time'), kw.get('var_name'))")
         lines.append("    return fn")
         lines.append("")
-    lines += ["@service", "def lifecycle(cmd=None, slot=None, gen=None, tmpl=None):",
+    cells = any(op["kind"] == "cell_make" for op in scn["ops"])
+    if cells:
+        lines += ["cells = {}", ""]
+        for idx, kinds in enumerate(spec["templates"]):
+            lines.append(f"def cell{idx}(slot, gen):")
+            for dec in _decorators(kinds, "slot"):
+                lines.append("    " + dec)
+            lines.append("    def fn(**kw):")
+            lines.append(f"        sim.mark('run', slot, gen, {idx}, kw.get('trigger_type'), kw.get('trigger_time'), kw.get('var_name'))")
+            lines += ["    def dropper(how):",
+                      "        nonlocal fn",
+                      "        if how == 'del':",
+                      "            del fn",
+                      "        else:",
+                      "            fn = None",
+                      "    return dropper",
+                      ""]
+    lines += ["@service", "def lifecycle(cmd=None, slot=None, gen=None, tmpl=None, how=None):",
               "    fn = None"]
     for idx in range(len(spec["templates"])):
         lines.append(f"    if tmpl == {idx} and cmd in ('make', 'append', 'lost'):")
         lines.append(f"        fn = fact{idx}(slot, gen)")
+        if cells:
+            lines.append(f"    if tmpl == {idx} and cmd == 'cell_make':")
+            lines.append(f"        fn = cell{idx}(slot, gen)")
     lines += ["    if cmd == 'make':",
               "        holder[slot] = fn",
               "    elif cmd == 'append':",
@@ -183,14 +309,25 @@ def render(scn: dict) -> dict:
               "        holder.pop(slot, None)",
               "    elif cmd == 'clear':",
               "        holder.clear()",
-              "        lst.clear()",
-              "    fn = None",
+              "        lst.clear()"]
+    if cells:
+        lines += ["        cells.clear()",
+                  "    elif cmd == 'cell_make':",
+                  "        cells[slot] = fn",
+                  "    elif cmd == 'cell_drop':",
+                  "        cells[slot](how)"]
+    lines += ["    fn = None",
               ""]
     files = {"pyscript/c09.py": "\n".join(lines) + "\n"}
     for name, tmpl in spec["files"].items():
         if tmpl < len(spec["templates"]):
             files[f"pyscript/g_{name}.py"] = _file_src(name, tmpl, spec["templates"][tmpl], 0,
                                                        name in spec.get("redef", []))
+    app = spec.get("app")
+    if app:
+        tmpls = spec["templates"]
+        files[APP_MAIN] = _app_src("main", app["main"], tmpls[app["main"]], 0, app.get("imports", True))
+        files[APP_SUB] = _app_src("sub", app["sub"], tmpls[app["sub"]], 0)
     return files
 
 
@@ -199,8 +336,9 @@ def normalize(scn: dict) -> dict | None:
     if n == 0:
         return None
     for op in scn["ops"]:
-        if "tmpl" in op and op["tmpl"] >= n:
-            op["tmpl"] = op["tmpl"] % n
+        for fld in ("tmpl", "tmpl2"):
+            if fld in op and op[fld] >= n:
+                op[fld] = op[fld] % n
     scn["spec"]["files"] = {k: v % n for k, v in scn["spec"]["files"].items()}
     # at most one *file* declares the shared service name at any time: when two files that both declare it start
     # together (set-up, start of Home Assistant) which of them gets the name is a race the property does not decide
@@ -213,18 +351,58 @@ def normalize(scn: dict) -> dict | None:
             files[name] = plain[0]
         else:
             del files[name]
+    # the files of the app never declare the shared name (they start together with the other files)
+    app = scn["spec"].get("app")
+    if app:
+        for part in ("main", "sub"):
+            app[part] = app[part] % n
+            if "shr" in tmpls[app[part]]:
+                if plain:
+                    app[part] = plain[0]
+                else:
+                    app = scn["spec"]["app"] = None
+                    break
+    def hazard(idx):
+        kinds = tmpls[idx]
+        return "svc" in kinds and "shr" in kinds and kinds.index("svc") < kinds.index("shr")
+
     cur = dict(files)
     ops = []
     for op in scn["ops"]:
-        if op["kind"] == "file_edit":
+        if scn["cfg"].get("steer") and op["kind"] in ("make_racing", "file_edit_racing") and hazard(op["tmpl"]):
+            # steered away from finding C09.unstarted_stop: the definition that is stopped while it is being started
+            # does not list @service before the shared service name
+            safe = [i for i in range(n) if not hazard(i)]
+            if safe:
+                op["tmpl"] = safe[0]
+            elif op["kind"] == "make_racing" and op["then"] == "main_reload":
+                op = {"kind": "make", "slot": op["slot"], "tmpl": op["tmpl"]}
+            elif op["kind"] == "file_edit_racing":
+                op = {"kind": "file_edit", "name": op["name"], "tmpl": op["tmpl2"]}
+            # (make_racing + unload: everything is unloaded, nothing live is left to lose its service)
+        if scn["cfg"].get("steer") and op["kind"] == "cell_drop" and op.get("how") == "del":
+            op["how"] = "rebind"  # steered away from finding C09.cell_del
+        if op["kind"] in ("file_edit", "file_edit_racing"):
             other = [n for n in cur if n != op["name"] and "shr" in tmpls[cur[n]]]
-            if "shr" in tmpls[op["tmpl"]] and other:
+            drop = False
+            for fld in ("tmpl", "tmpl2"):
+                if fld in op and "shr" in tmpls[op[fld]] and other:
+                    if not plain:
+                        drop = True
+                        break
+                    op[fld] = plain[0]
+            if drop:
+                continue
+            cur[op["name"]] = op.get("tmpl2", op["tmpl"])
+        elif op["kind"] == "file_delete":
+            cur.pop(op["name"], None)
+        elif op["kind"] in ("app_edit", "app_remove_main"):
+            if not app:
+                continue
+            if "tmpl" in op and "shr" in tmpls[op["tmpl"]]:
                 if not plain:
                     continue
                 op["tmpl"] = plain[0]
-            cur[op["name"]] = op["tmpl"]
-        elif op["kind"] == "file_delete":
-            cur.pop(op["name"], None)
         ops.append(op)
     scn["ops"] = ops
     return scn
@@ -245,8 +423,43 @@ def simplify(scn: dict):
         cand = copy.deepcopy(scn)
         cand["spec"]["redef"].remove(name)
         yield cand
+    for ti, kinds in enumerate(scn["spec"]["templates"]):
+        if kinds != sorted(kinds, key=KINDS.index):
+            cand = copy.deepcopy(scn)
+            cand["spec"]["templates"][ti] = sorted(kinds, key=KINDS.index)  # the conventional decorator order
+            yield cand
+    if scn["spec"].get("app"):
+        cand = copy.deepcopy(scn)
+        cand["spec"]["app"] = None
+        yield normalize(cand)  # drops the app ops
+    for oi, op in enumerate(scn["ops"]):
+        cand = None
+        if op["kind"] == "file_edit_racing":
+            cand = copy.deepcopy(scn)
+            cand["ops"][oi] = {"kind": "file_edit", "name": op["name"], "tmpl": op["tmpl2"]}
+        elif op["kind"] == "make_racing" and op["then"] == "main_reload":
+            cand = copy.deepcopy(scn)
+            cand["ops"][oi] = {"kind": "make", "slot": op["slot"], "tmpl": op["tmpl"]}
+        elif op["kind"] == "cell_make":
+            cand = copy.deepcopy(scn)
+            cand["ops"][oi] = {"kind": "make", "slot": op["slot"], "tmpl": op["tmpl"]}
+        elif op["kind"] == "cell_drop" and op["how"] == "del":
+            cand = copy.deepcopy(scn)
+            cand["ops"][oi]["how"] = "rebind"
+        elif op["kind"] == "app_remove_main" and op["how"] == "comment":
+            cand = copy.deepcopy(scn)
+            cand["ops"][oi]["how"] = "delete"
+        elif op["kind"] == "app_edit" and op["part"] == "main" and not op.get("imports", True):
+            cand = copy.deepcopy(scn)
+            cand["ops"][oi]["imports"] = True
+        if cand is not None:
+            yield cand
+        if op.get("after_ms"):
+            cand = copy.deepcopy(scn)
+            cand["ops"][oi]["after_ms"] = 0
+            yield cand
     for key, val in (("timer_late_ms", 0.0), ("cost_us", 50), ("exec_latency_ms", [0.0, 0.0]), ("set_order_salt", 0),
-                     ("svc_params_delay_ms", 0)):
+                     ("svc_params_delay_ms", 0), ("svc_delay_where", "all")):
         if scn["cfg"].get(key) != val:
             cand = copy.deepcopy(scn)
             cand["cfg"][key] = val
@@ -287,12 +500,82 @@ def _diff(a: dict, b: dict) -> dict:
     return out
 
 
+class C09World(World):
+    """World + observation (reach probes only, no behaviour change) of a context stopped while the start of one of
+    its @service decorators is suspended."""
+
+    def extra_patches(self) -> list:
+        from unittest.mock import patch
+
+        self.c09_flags: dict = {}
+
+        from custom_components.pyscript.decorators.service import ServiceDecorator
+        from custom_components.pyscript.global_ctx import GlobalContext
+
+        world = self
+        starting: list = []  # @service decorators whose start() is in progress
+        orig_start = ServiceDecorator.start
+        orig_stop = GlobalContext.stop
+        in_start = contextvars.ContextVar("c09_in_service_start", default=False)
+        out = []
+        start_ms = float(self.cfg.get("svc_start_delay_ms") or 0.0)
+        if start_ms > 0:
+            # the same legal suspension as World's cfg["svc_params_delay_ms"], but only for the refresh a starting
+            # @service makes (every other refresh finds the cache warm)
+            from custom_components.pyscript.state import State
+
+            orig_gsp = State.get_service_params
+
+            async def slow_in_start():
+                if in_start.get():
+                    world.fault("slow_service_description_load")
+                    await asyncio.sleep(start_ms / 1000.0)
+                return await orig_gsp()
+
+            out.append(patch.object(State, "get_service_params", staticmethod(slow_in_start)))
+
+        async def start(dec):
+            starting.append(dec)
+            token = in_start.set(True)
+            try:
+                return await orig_start(dec)
+            finally:
+                in_start.reset(token)
+                starting.remove(dec)
+
+        def stop(ctx):
+            from custom_components.pyscript.function import Function
+
+            for dec in starting:
+                if any(dm is dec.dm for dm in ctx.dms):
+                    world.probe("context_stopped_while_service_start_suspended")
+                    decs = dec.dm.get_decorators()
+                    pos = [i for i, d in enumerate(decs) if d is dec]
+                    later = decs[pos[0] + 1:] if pos else []
+                    if later:
+                        world.probe("stopped_service_start_had_more_decorators_to_start")
+                    for other in later:
+                        # a @service further down the list that has not been started: is its name registered by
+                        # somebody else right now?  (observation for the signature of finding C09.unstarted_stop)
+                        if isinstance(other, ServiceDecorator) and any(
+                                Function.service_cnt.get(f"{dom}.{name}", 0) > 0 for dom, name in other.args):
+                            world.probe("unstarted_service_of_stopped_function_names_live_service")
+                            world.c09_flags["unstarted_service_names_live_service"] = True
+            return orig_stop(ctx)
+
+        return out + [patch.object(ServiceDecorator, "start", start), patch.object(GlobalContext, "stop", stop)]
+
+
 def run(scn: dict) -> dict:
     spec = scn["spec"]
     templates = spec["templates"]
     cfg = dict(scn["cfg"])
     cfg["initial_states"] = {"pyscript.p0": ["0", {"a0": 1}], "pyscript.p1": ["0", {"a1": 0}], "pyscript.p2": ["ok", {}]}
-    w = World(cfg, render(scn))
+    if spec.get("app"):
+        cfg["apps"] = {APP: {}}
+    if cfg.get("svc_delay_where", "all") == "start_only":
+        cfg["svc_start_delay_ms"], cfg["svc_params_delay_ms"] = cfg.get("svc_params_delay_ms", 0), 0
+    w = C09World(cfg, render(scn))
     sub = "legacy" if cfg["legacy"] else "new"
     violations: list = []
     state = {"removed_any": False}
@@ -302,6 +585,9 @@ def run(scn: dict) -> dict:
         if any("Handler is already defined" in (lg["msg"] or "") for lg in w.logs):
             # from here on the run has diverged at the known webhook-redefinition defect
             sig = {"subsystem": sub, "why": "webhook_handler_already_defined_on_redefinition"}
+        # (two findings made with this workload - C09-F8 `del` of a captured variable, C09-F9 stop of a function
+        # that is still starting - used to re-label everything after the point of divergence; both are repaired in
+        # /repo, so violations are reported under their own class again)
         violations.append({"class": cls, "sig": sig, "detail": detail, "t": w.vts()})
 
     async def driver(w: World):
@@ -314,6 +600,9 @@ def run(scn: dict) -> dict:
         file_gen = {name: 0 for name in FILES}
         file_tmpl = dict(spec["files"])
         file_present = {name: name in spec["files"] for name in FILES}
+        app0 = spec.get("app") or None
+        app_st = {"main_present": bool(app0), "main": app0["main"] if app0 else 0, "sub": app0["sub"] if app0 else 0,
+                  "imports": bool(app0 and app0.get("imports", True)), "main_gen": 0, "sub_gen": 0}
         loaded = True
         entry_loaded = True
         p2 = "ok"
@@ -342,6 +631,8 @@ def run(scn: dict) -> dict:
             if key in live:
                 remove(key, "redefine")
             live[key] = {"gen": gen_no, "tmpl": tmpl, "where": where}
+            if any(k in ("svc", "shr") for k in templates[tmpl][:-1]):
+                w.probe("service_listed_before_other_trigger")
             # refused when another context has a live declarer of the shared name; what else of a refused definition
             # is active is not stated (legacy: nothing is set up, new: the manager is rolled back)
             if "shr" in templates[tmpl] and shared["owner"] not in (None, ctx_of(key)):
@@ -369,8 +660,25 @@ def run(scn: dict) -> dict:
             if "per" in templates[ent["tmpl"]]:
                 w.probe("periodic_trigger_removed")
 
+        def define_app():
+            """The app has been (re)loaded as a whole, or is gone: the reference model of its two files."""
+            if not app0:
+                return
+            if not app_st["main_present"]:
+                for key in APP_KEYS:
+                    remove(key, "app_removed")
+                return
+            define("app_main", app_st["main"], "app", app_st["main_gen"])
+            if app_st["imports"]:
+                define("app_sub", app_st["sub"], "app", app_st["sub_gen"])
+            else:
+                remove("app_sub", "not_imported")
+
         for name, tmpl in spec["files"].items():
             define(f"file_{name}", tmpl, "file", 0)
+        define_app()
+        if app0:
+            w.probe("app_package_loaded")
         # the startup markers of the initial load happened before the driver started
         init_marks = [tuple(m["args"][:6]) for m in w.marks]
         want_init = sorted(expected_extra)
@@ -410,7 +718,8 @@ def run(scn: dict) -> dict:
                     except BaseException as exc:  # pylint: disable=broad-except
                         viol("C09.webhook_raised", {}, f"posting to hook_{key} raised {exc!r}")
             await w.settle(0.05)
-            for key in sorted(set(list(live) + [f"file_{n}" for n in FILES] + SLOTS)):
+            for key in sorted(set(list(live) + [f"file_{n}" for n in FILES] + SLOTS + APP_KEYS
+                                  + [f"K{s}" for s in SLOTS])):
                 svc = f"svc_{key}"
                 should = key in live and "svc" in kinds_of(key) and entry_loaded
                 has = w.hass.services.has_service("pyscript", svc)
@@ -530,8 +839,8 @@ def run(scn: dict) -> dict:
                 if diff:
                     viol("C09.census_depends_on_history", {"tables": "+".join(sorted(diff))},
                          f"after {tag}: live set {key} had census {census_by_key[key][0]!r}-time values, now differs: {diff}")
-            else:
-                census_by_key[key] = (tag, cen)
+            elif not state.get("cell_del_applied"):
+                census_by_key[key] = (tag, cen)  # (never a reference while the run may have diverged at C09.cell_del)
             return cen
 
         census_check("start")
@@ -539,6 +848,10 @@ def run(scn: dict) -> dict:
         for i, op in enumerate(scn["ops"]):
             kind = op["kind"]
             tag = f"op{i}:{kind}"
+            if state.pop("cell_del_ending", False):
+                # the previous op released the cell / ended the script's context and has been judged: the divergence at
+                # finding C09.cell_del (if any) is over
+                state["cell_del_applied"] = False
             if kind == "stall":
                 w.loop.stall(op["s"])
                 w.fault("stall")
@@ -564,6 +877,25 @@ def run(scn: dict) -> dict:
                 gens[key] = gens.get(key, 0) + 1
                 await w.call_service("pyscript", "lifecycle", {"cmd": kind, "slot": key, "gen": gens[key], "tmpl": op["tmpl"]})
                 define(key, op["tmpl"], "closure", gens[key])
+            elif kind == "cell_make":
+                key = f"K{op['slot']}"
+                if key in live:
+                    w.probe("redefined_in_slot")
+                gens[key] = gens.get(key, 0) + 1
+                w.probe("closure_referenced_by_cell_only")
+                await w.call_service("pyscript", "lifecycle", {"cmd": "cell_make", "slot": key, "gen": gens[key],
+                                                               "tmpl": op["tmpl"]})
+                define(key, op["tmpl"], "closure", gens[key])
+            elif kind == "cell_drop":
+                key = f"K{op['slot']}"
+                if key not in live:
+                    continue  # nothing bound in that cell (the script would raise NameError on a second del)
+                how = op.get("how", "rebind")
+                w.probe("cell_variable_deleted" if how == "del" else "cell_variable_overwritten")
+                await w.call_service("pyscript", "lifecycle", {"cmd": "cell_drop", "slot": key, "how": how})
+                remove(key, "cell_drop")
+                if how == "del":
+                    state["cell_del_applied"] = True
             elif kind == "make_lost":
                 lost_n += 1
                 key = f"X{lost_n}"
@@ -581,6 +913,7 @@ def run(scn: dict) -> dict:
                 await w.call_service("pyscript", "lifecycle", {"cmd": "clear"})
                 for key in [k for k, v in live.items() if v["where"] == "closure"]:
                     remove(key, "clear")
+                state["cell_del_ending"] = True  # the cells themselves are released
             elif kind == "file_edit":
                 name = op["name"]
                 file_gen[name] += 1
@@ -591,6 +924,68 @@ def run(scn: dict) -> dict:
                 await w.reload()
                 w.probe("file_reloaded")
                 define(f"file_{name}", op["tmpl"], "file", file_gen[name])
+            elif kind == "file_edit_racing":
+                # two edits of one file reloaded a few ms apart: the functions of the first edit are still being
+                # started (or have just been) when the second reload stops their context
+                name = op["name"]
+                key = f"file_{name}"
+                file_gen[name] += 1
+                racing.add((key, file_gen[name]))
+                if name in spec.get("redef", []):
+                    racing.add((key, OLD_GEN + file_gen[name]))
+                w.write_file(f"pyscript/g_{name}.py", _file_src(name, op["tmpl"], templates[op["tmpl"]], file_gen[name],
+                                                                name in spec.get("redef", [])))
+                await w.reload()
+                if op["after_ms"]:
+                    await w.sleep(op["after_ms"] / 1000.0)
+                w.probe("file_reloaded_again_while_starting")
+                file_gen[name] += 1
+                file_tmpl[name] = op["tmpl2"]
+                file_present[name] = True
+                w.write_file(f"pyscript/g_{name}.py", _file_src(name, op["tmpl2"], templates[op["tmpl2"]], file_gen[name],
+                                                                name in spec.get("redef", [])))
+                await w.reload()
+                define(key, op["tmpl2"], "file", file_gen[name])
+            elif kind == "app_edit":
+                part = op["part"]
+                if part == "sub":
+                    app_st["sub_gen"] += 1
+                    app_st["sub"] = op["tmpl"]
+                    w.write_file(APP_SUB, _app_src("sub", op["tmpl"], templates[op["tmpl"]], app_st["sub_gen"]))
+                    # the sibling is loaded through the main file's import only: while it is not imported it is
+                    # not part of the loaded app and a change of it reloads nothing
+                    reloaded = app_st["main_present"] and app_st["imports"]
+                    if reloaded:
+                        w.probe("app_file_edited")
+                else:
+                    if not app_st["main_present"]:
+                        w.probe("app_restored")
+                    else:
+                        w.probe("app_file_edited")
+                    if app_st["main_present"] and app_st["imports"] and not op.get("imports", True):
+                        w.probe("app_sibling_no_longer_imported")
+                    app_st["main_gen"] += 1
+                    app_st["main"] = op["tmpl"]
+                    app_st["imports"] = bool(op.get("imports", True))
+                    app_st["main_present"] = True
+                    w.delete_file(APP_MAIN_COMMENTED)
+                    w.write_file(APP_MAIN, _app_src("main", op["tmpl"], templates[op["tmpl"]], app_st["main_gen"],
+                                                    app_st["imports"]))
+                    reloaded = True
+                await w.reload()
+                if reloaded:
+                    define_app()
+            elif kind == "app_remove_main":
+                if app_st["main_present"]:
+                    w.probe("app_main_commented_sibling_on_disk" if op["how"] == "comment"
+                            else "app_main_deleted_sibling_on_disk")
+                    if op["how"] == "comment":
+                        w.rename(APP_MAIN, APP_MAIN_COMMENTED)
+                    else:
+                        w.delete_file(APP_MAIN)
+                app_st["main_present"] = False
+                await w.reload()
+                define_app()
             elif kind == "file_delete":
                 name = op["name"]
                 if file_present[name]:
@@ -615,6 +1010,7 @@ def run(scn: dict) -> dict:
                     for k in list(live):
                         remove(k, "unload")
                     entry_loaded = False
+                    state["cell_del_ending"] = True
                     kind = "unload"
                 else:
                     state["main_rev"] = state.get("main_rev", 0) + 1
@@ -622,11 +1018,13 @@ def run(scn: dict) -> dict:
                     await w.reload()
                     for k in [k for k, v in live.items() if v["where"] == "closure"]:
                         remove(k, "main_reload")
+                    state["cell_del_ending"] = True  # the script's old context is gone
             elif kind == "unload":
                 await w.unload_entry()
                 for key in list(live):
                     remove(key, "unload")
                 entry_loaded = False
+                state["cell_del_ending"] = True
             elif kind == "setup":
                 if entry_loaded:
                     continue
@@ -636,6 +1034,7 @@ def run(scn: dict) -> dict:
                 for name in FILES:
                     if file_present[name]:
                         define(f"file_{name}", file_tmpl[name], "file", file_gen[name])
+                define_app()
             await settle_gc()
             state["last_op_settled"] = w.loop.vt
             cen = census_check(tag)
